@@ -250,6 +250,9 @@ func findAMOAnchors(w *World, eff *Effects, detect *ssa.Function, clausesField s
 				writes = true
 			}
 		}
+		if !writes && typeShort(call.Type()) == "[]*solver.Clause" && flowsToFieldStore(call, clausesField, 0) {
+			writes = true // `pb.Clauses = withoutBinaries(pb.Clauses, toRemove)`: the rebuilt list is stored by the caller
+		}
 		if !writes {
 			continue
 		}
@@ -389,14 +392,30 @@ func retention(w *World, rebuild *ssa.Function, clausesField string) []amoCheck 
 			}
 		}
 	})
-	if len(stores) == 0 {
+	// the rebuilt list: what is stored into the field, or what the function returns (the caller stores it)
+	var vals []ssa.Value
+	for _, st := range stores {
+		vals = append(vals, st.Val)
+	}
+	if len(vals) == 0 {
+		allInstrs(rebuild, func(ins ssa.Instruction) {
+			if ret, ok := ins.(*ssa.Return); ok {
+				for _, rv := range ret.Results {
+					if typeShort(rv.Type()) == "[]*solver.Clause" {
+						vals = append(vals, rv)
+					}
+				}
+			}
+		})
+	}
+	if len(vals) == 0 {
 		return []amoCheck{{Key: key, Unk: true, Pos: w.Pos(rebuild.Pos()), Detail: "no store to " + clausesField + " in the function"}}
 	}
 	var out []amoCheck
 	seenLoop := map[*ssa.BasicBlock]bool{}
 	headers := loopHeaders(rebuild)
-	for _, st := range stores {
-		web, appends := sliceWeb(st.Val)
+	for _, val := range vals {
+		web, appends := sliceWeb(val)
 		for _, ap := range appends {
 			// innermost loop containing the append
 			var head *ssa.BasicBlock
